@@ -291,7 +291,11 @@ def extract_iter(
             if to_unwrap:
                 depth = max(depth, to_unwrap[0][2]) + 1
         for item in reversed(items):
-            to_unwrap.appendleft((better_origin(item, None), item, depth))
+            # (None is no stack item here either, as in the results of
+            # unwrap_stackitem: a hook that looks something up to insert it,
+            # and finds nothing, inserts nothing)
+            if item is not None:
+                to_unwrap.appendleft((better_origin(item, None), item, depth))
 
     return None
 
